@@ -273,11 +273,11 @@ def C14(ctx):
 PROPS = {"C13": C13, "C15": C15, "C16": C16, "C12": C12, "C04": C04, "C05": C05, "C06": C06, "C07": C07, "C14": C14, "C11": C11, "C08": C08, "C09": C09, "C01": C01, "C02": C02, "C03": C03, "C10": C10, "C17": C17, "C18": C18}
 
 
-def run(prop, tier):
+def run(prop, tier, facts=None):
     if prop not in PROPS:
         print("unknown property", prop)
         return 2
-    ctx = Ctx(prop, tier)
+    ctx = Ctx(prop, tier, facts)
     expl, notdec = PROPS[prop](ctx)
     if tier == "thorough" and not ctx.violations and not os.environ.get("XV_NO_SENTINELS"):
         from . import sentinels
